@@ -13,7 +13,7 @@ from harness.check import CheckRun
 
 from . import common, fam
 
-RELAX = ['cap', 'rate', 'level_lo', 'level_hi', 'end_level', 'min_take', 'max_take', 'outside_window', 'balance']
+RELAX = ['group_rate', 'cap', 'rate', 'level_lo', 'level_hi', 'end_level', 'min_take', 'max_take', 'outside_window', 'balance']
 
 
 def families(tier):
@@ -22,6 +22,8 @@ def families(tier):
           ('transport', fam.fam_transport(thorough=th)), ('transport_takes', fam.fam_transport_takes()),
           ('storage', fam.fam_storage(thorough=th)),
           ('multi', fam.fam_multi(thorough=th)), ('discount', fam.fam_discount(thorough=th)),
+          # discount rates that differ between assets sharing a window and a coarser frequency (what an asset leaves on the shared grid)
+          ('coarse_discount', fam.fam_coarse_discount()),
           ('composite', fam.fam_composite(thorough=th)[::1 if th else 3])]
     if th:
         fs.append(('storage_T4', fam.fam_storage(T=4, variants=fam.STORAGES[:6])))
